@@ -511,13 +511,13 @@ def run(report, tier: str, seed: int):
     quick = tier == "quick"
     n_exh = 3 if quick else 4
     n_max = 4 if quick else 5
-    n_rand = 1500 if quick else 8000
+    n_rand = 1500 if quick else 6000
     n_seq = n_max if quick else 4
     n_small = 2 if quick else 3
     log = report.driver(
         "order_views_vs_placement",
         bound=f"exhaustive: every class with <= {n_exh} elements (>= 1 field, rest serialized methods / resolvers), every assignment of "
-        f"{{none, order(-1|0|1|999), after=x, before=x (x any other element)}} as field-level metadata and again (size <= 3 exhaustively, 5 % sample at size 4) as class-level mapping over decoy metadata, "
+        f"{{none, order(-1|0|1|999), after=x, before=x (x any other element)}} as field-level metadata and again (size <= 3 exhaustively" + ("" if quick else ", 5 % sample at size 4") + ") as class-level mapping over decoy metadata, "
         f"every class-level sequence over >= 2 of <= {n_seq} elements; base / derived class pairs with <= {n_small} elements (every cut, every field-level assignment, every pair of one-element overrides base x derived, sequence x sequence); the 4 other method declaration styles and aliased elements (upper-cased / rotated names) exhaustively at size <= {n_small}; sampled ({n_rand} seeded random classes with <= {n_max} elements): 1..3 inheritance levels, "
         f"field-level specs + class-level sequence / mapping per level, 5 method declaration styles, targets by name or by Field / function object, aliases on a random subset; 5 views each",
         label="B",
@@ -554,7 +554,7 @@ def run(report, tier: str, seed: int):
         gql = iter(graphql_views(ok)) if ok else iter(())
         for (desc, eff, perm), r in zip(batch, realised):
             nontrivial = any(sp is not None for sp in eff.values())
-            log.case(("class", desc.style, desc.targets, desc.short()), nontrivial, sample={"class": desc.short(), "style": desc.style, "expected": perm})
+            log.case(("class", desc.style, desc.targets, desc.short()), nontrivial, sample={"class": desc.short(), "style": desc.style, "expected": perm} if len(perm) >= 3 and perm != desc.elements() else None)
             tag = feature_tags(desc, eff)
             if isinstance(r, Exception):
                 fail("declare-crash", "class", desc, tag, repr(r), perm, f"declaring the class raised {r!r}")
@@ -634,3 +634,38 @@ def run(report, tier: str, seed: int):
     finally:
         apischema.cache.reset()
     return log
+
+
+def replay(rp: dict) -> int:
+    """re-run one failing case from its replay file: 1 when the view still differs from the expected order"""
+    import ast
+
+    case = rp.get("case") or {}
+    print(json_dumps({k: rp.get(k) for k in ("property", "signature", "summary")}))
+    src = case.get("source")
+    if not src or "view" not in case:
+        return 1
+    print(src)
+    names = [l.split()[1].split("(")[0].rstrip(":") for l in src.splitlines() if l.startswith("class ")]
+    r = Realised.__new__(Realised)
+    from apischema import alias, order, serialized
+    from apischema.graphql import resolver
+
+    r.modname = "c16_replay"
+    mod = pytypes.ModuleType(r.modname)
+    mod.__dict__.update({"dataclass": dataclasses.dataclass, "field": dataclasses.field, "order": order, "serialized": serialized, "resolver": resolver, "alias": alias, "_F": _F})
+    sys.modules[r.modname] = mod
+    exec(compile(src, "<c16 replay>", "exec"), mod.__dict__)
+    r.cls = mod.__dict__[names[-1]]
+    views = r.json_views()
+    views.update(graphql_views([r])[0])
+    got = views[case["view"]]
+    exp = ast.literal_eval(rp.get("expected", "None"))
+    print(f"view {case['view']}: observed {got!r}, expected {exp!r}")
+    return 0 if got == exp else 1
+
+
+def json_dumps(x) -> str:
+    import json
+
+    return json.dumps(x, indent=1, default=str)
